@@ -5,6 +5,7 @@ package c13
 
 import (
 	"context"
+	"errors"
 	"fmt"
 	"io"
 	"math"
@@ -45,7 +46,7 @@ func stackTop() string {
 	var out []string
 	for i += 2; i+1 < len(lines) && len(out) < 3; i += 2 {
 		fn, loc := lines[i], strings.TrimSpace(lines[i+1])
-		if strings.HasPrefix(fn, "runtime.") || strings.HasPrefix(fn, "panic(") {
+		if strings.HasPrefix(fn, "runtime.") || strings.HasPrefix(fn, "panic(") || strings.HasPrefix(fn, "replay/c13.") {
 			continue
 		}
 		if k := strings.LastIndex(fn, "("); k > 0 {
@@ -102,6 +103,7 @@ type exerciser struct {
 	// blown) and reported once per signature, with the first operation that showed it and the
 	// number of further ones.
 	mu     sync.Mutex
+	dead   atomic.Bool // the case has shown the same failure often enough: no more operations
 	sigs   []string
 	first  map[string]string
 	others map[string]int
@@ -114,19 +116,27 @@ func (x *exerciser) fail(op, sig string) {
 		x.first, x.others = map[string]string{}, map[string]int{}
 	}
 	if _, seen := x.first[sig]; seen {
-		x.others[sig]++
+		// an operation that blows its budget costs the whole budget; the case has failed
+		// anyway, so it is abandoned once one failure has shown in abandonAfter operations
+		if x.others[sig]++; x.others[sig]+1 >= abandonAfter && strings.HasPrefix(sig, "unbounded work") {
+			x.dead.Store(true)
+		}
 		return
 	}
 	x.first[sig] = op
 	x.sigs = append(x.sigs, sig)
 }
 
+const abandonAfter = 6
+
 // report emits the collected failures of the case.
 func (x *exerciser) report() {
 	x.mu.Lock()
 	defer x.mu.Unlock()
 	for _, sig := range x.sigs {
-		if n := x.others[sig]; n > 0 {
+		if n := x.others[sig]; n+1 >= abandonAfter && strings.HasPrefix(sig, "unbounded work") {
+			x.r.Fail(x.id, "%s (and %d more operations, then the case was abandoned): %s", x.first[sig], n, sig)
+		} else if n > 0 {
 			x.r.Fail(x.id, "%s (and %d more operations): %s", x.first[sig], n, sig)
 		} else {
 			x.r.Fail(x.id, "%s: %s", x.first[sig], sig)
@@ -138,6 +148,9 @@ func (x *exerciser) report() {
 // op runs one operation: its own recover (reporting the operation, the panic value and the top
 // of the stack; r.Guard is the backstop), a fresh load budget, and a budget check afterwards.
 func (x *exerciser) op(name string, f func()) {
+	if x.dead.Load() {
+		return
+	}
 	full := x.path + "/" + name
 	x.cur.Store(full)
 	x.w.reset()
@@ -520,15 +533,19 @@ func (x *exerciser) root(c cid.Cid) {
 	}{{"entity", selEntity}, {"preload", selPreload}, {"explore-all", selAll}} {
 		x.path = "walk"
 		x.op(s.name, func() {
-			steps := int64(0)
-			prog := traversal.Progress{Cfg: &traversal.Config{Ctx: ctx, LinkSystem: *x.ls, LinkTargetNodePrototypeChooser: vp.Chooser}}
-			prog.WalkMatching(pbn, s.sel, func(p traversal.Progress, n datamodel.Node) error {
-				if steps++; steps > x.w.yardstick() {
-					x.over(s.name, "nodes matched", x.w.yardstick())
-					return fmt.Errorf("c13: too many matches")
-				}
-				return unixfsnode.BytesConsumingMatcher(p, n)
-			})
+			// the traversal visits the scalar fields of every link too, hence a node budget of ten
+			// yardsticks; it is the traversal's own budget, so a walk over an iterator that
+			// never ends is stopped
+			nodes := 10 * x.w.yardstick()
+			prog := traversal.Progress{
+				Cfg:    &traversal.Config{Ctx: ctx, LinkSystem: *x.ls, LinkTargetNodePrototypeChooser: vp.Chooser},
+				Budget: &traversal.Budget{NodeBudget: nodes, LinkBudget: nodes},
+			}
+			err := prog.WalkMatching(pbn, s.sel, unixfsnode.BytesConsumingMatcher)
+			var be *traversal.ErrBudgetExceeded
+			if errors.As(err, &be) {
+				x.over(s.name, "nodes visited by the traversal", nodes)
+			}
 		})
 	}
 }
@@ -557,7 +574,8 @@ func keysFor(w *world, extra []string, max int) []string {
 func runCase(r *vp.Run, id string, w *world, c cid.Cid, extraKeys []string, full bool) {
 	r.Eval(id)
 	// the thorough tier has the time to put every hand-built case through the full treatment
-	full = full || (vp.Thorough() && !strings.HasPrefix(id, "rand:"))
+	// (small ones: it multiplies the work by about six)
+	full = full || (vp.Thorough() && !strings.HasPrefix(id, "rand:") && w.blocks <= 300)
 	x := &exerciser{r: r, id: id, w: w, full: full}
 	x.keys = keysFor(w, extraKeys, vp.Pick(40, 80))
 	x.cur.Store("start")
